@@ -612,7 +612,7 @@ theorem sectionInv_step (s s' : CState J V) (a : Act J V) (h : SectionInv merge 
       split at hs
       · rename_i j v hmv
         injection hs with hs; subst hs
-        refine ⟨hm, ?_⟩
+        refine ⟨(by intro j' v' hv; cases hv), ?_⟩
         intro c hcm
         simp only [List.mem_append, List.mem_singleton] at hcm
         rcases hcm with hcm | rfl
@@ -708,8 +708,20 @@ theorem requests_one_at_a_time (cur : V) (acts : List (Act J V)) (s : CState J V
       · cases hr
   exact gen acts _ s h
 
-/-- the driver is called at most once per critical section entered with a merge … and never without one: a `call`
-is only possible after a `merge` of the same section succeeded -/
+/-- "exactly once": a merge is used up by the driver call — right after a `call` no second `call` is possible (not
+before the next request has merged its own payload) -/
+theorem no_second_call (s s' : CState J V) (t t' : Nat) (hs : ChangeSection.step merge s (.call t) = some s') :
+    ChangeSection.step merge s' (.call t') = none := by
+  simp only [ChangeSection.step] at hs; split at hs
+  · simp only [doCall] at hs
+    split at hs
+    · injection hs with hs; subst hs
+      simp only [ChangeSection.step, doCall]
+      split <;> rfl
+    · cases hs
+  · cases hs
+
+/-- … and never without a merge: a `call` is only possible after a `merge` of the same section succeeded -/
 theorem call_needs_merge (s s' : CState J V) (t : Nat) (hs : ChangeSection.step merge s (.call t) = some s') :
     ∃ j v, s.merged = some (j, v) ∧ s.owner = some t ∧ s'.calls = s.calls ++ [⟨t, j, s.cur, v⟩] := by
   simp only [ChangeSection.step] at hs; split at hs
@@ -734,6 +746,13 @@ example : (ChangeSection.run mergePI (ChangeSection.init (0, 0))
      .acquire 3, .store 3 (1, 5), .release 3,
      .begin 2, .acquire 2, .merge 2 (none, some 2), .call 2, .store 2 (1, 2), .release 2, .finish 2]).map
       (fun s => (s.cur, s.calls.map (fun c => (c.current, c.value)))) = some ((1, 2), [((0, 0), (1, 0)), ((1, 5), (1, 2))]) := by
+  decide
+
+open SectionExample in
+/-- non-vacuity of `no_second_call` / `call_needs_merge`: the call after a merge is a step, a second one is not -/
+example : (ChangeSection.run mergePI (ChangeSection.init (0, 0)) [.begin 1, .acquire 1, .merge 1 (some 1, none), .call 1]).isSome = true ∧
+    ChangeSection.run mergePI (ChangeSection.init (0, 0)) [.begin 1, .acquire 1, .merge 1 (some 1, none), .call 1, .call 1] = none ∧
+    ChangeSection.run mergePI (ChangeSection.init (0, 0)) [.begin 1, .acquire 1, .call 1] = none := by
   decide
 
 open SectionExample in
